@@ -121,7 +121,20 @@ class Interp:
                     continue
                 whole = [d for d in defs if d[0] == ""]
                 if len(whole) != 1:
-                    continue
+                    # a reference bound once and then stored through (`if let Some(Session { state, .. }) = self.w.as_mut() { *state = X }`):
+                    # var_defs lists the store as a further definition of the name; the binding itself is the only definition of the local
+                    ls_ = [l_ for l_, n_ in b.names.items() if n_ == name]
+                    own = []
+                    for l_ in ls_:
+                        for (bb_, idx_, kind_) in b.defs().get(l_, []):
+                            if kind_ == "whole" and idx_ != "term" and not b.blocks[bb_].cleanup and b.blocks[bb_].cloned_from is None:
+                                own.append(b.blocks[bb_].stmts[idx_].rv)
+                            elif kind_ in ("call", "partial"):
+                                own.append(None)
+                    if len(ls_) == 1 and len(own) == 1 and own[0] is not None and own[0].k in ("ref", "rawptr"):
+                        whole = [("", sl.x.rvalue(own[0], sl.x.depth))]
+                    else:
+                        continue
                 p = canon_path(whole[0][1], out)
                 if p is not None and (p == "self" or p.startswith("self.")):
                     out[name] = p
